@@ -22,13 +22,18 @@ RULE = ("stage 1: for every registered constructor, schema-directed values (all 
         "must give the value back, nil-sensitively for conditional slices (present and empty = empty non-nil, absent = nil); "
         "for every conditional string / int / long / double / Bool field the schema bytes with that field present "
         "holding the zero value (which no Go value marshals to) are decoded as well; byte strings at the boundary lengths 0..5, 252..257, 65535, 65536 (thorough: "
-        "2^24-1, 2^24). distinct = distinct operation lines")
+        "2^24-1, 2^24); 128/256-bit integer fields of every constructor that has them with the numbers 0, 1, all ones, 1 / 2 / 8 / 16 / "
+        "all-but-one leading zero bytes and the two numbers around the half width on every run; values inside gzip_packed, alone "
+        "and as the result of an rpc_result (c02.gz: tl.Marshal's bytes, packed by the harness, through DecodeUnknownObject), "
+        "with a string / bytes parameter of 0..70000 bytes, of 2^24-4200 and 2^24-1 bytes and two of more than 2^23 bytes each "
+        "(the object unpacks to more than 2^24 bytes; thorough: ten sizes around 2^24). distinct = distinct operation lines")
 
 
 def run(ctx):
     ctx.assumptions += [
         "the schema tables are regenerated from schemes/*.tl on every run (translator validated inside Lean, see C13)",
         "types registered without a schema line (C13's known finding) have no schema-defined serialisation and are skipped",
+        "compress/gzip is not modelled: for c02.gz the decoder model's gunzip parameter answers the schema-defined bytes of the packed value (the harness' packing unpacks to what was packed)",
     ]
     if not ctx.build_harness():
         ctx.report_unexplained("go build of the harness against the working tree", ctx.obligations[-1][2][-800:])
@@ -56,6 +61,17 @@ def run(ctx):
                     stage2.append("c02.dec %s %s %s" % (l[4:], t[2], t[3]))
                 else:
                     ctx.report_unexplained("the schema side gives no bytes for: " + op[:200], {"lean": l})
+                continue
+            if op.startswith("c02.gz "):
+                # a value inside gzip_packed: the Go side prints length + digest of tl.Marshal's bytes and what
+                # DecodeUnknownObject made of the packed form, the Lean side those of the schema-defined bytes
+                # and the decoder model's answer (the Go-side oracle has judged "dec=ok" already)
+                if l.startswith("enc=notInSchema"):
+                    skipped += 1
+                elif l != g:
+                    ctx.report_failing_input({"op": op[:100000], "out": g[:400],
+                                              "why": "a value inside gzip_packed: real code: %s; schema-defined bytes / decoder model: %s" % (g[:200], l[:200])},
+                                             "gzip_packed: tl.Marshal vs the schema-defined serialisation, DecodeUnknownObject of the packed form")
                 continue
             if not op.startswith("c02.enc "):
                 if l != g:
@@ -116,10 +132,14 @@ def replay(ctx, path):
     go = open(os.path.join(d, "go.out")).read().splitlines()
     le = open(os.path.join(d, "lean.out")).read().splitlines()
     for op, g, l in zip(ops, go, le):
-        bad = (op.startswith("c02.dec") and g != "ok") or (not op.startswith("c02.dec") and not op.startswith("c02.encz ") and g != l)
+        bad = (op.startswith("c02.dec") and g != "ok") or (not op.startswith("c02.dec") and not op.startswith("c02.encz ") and g != l
+                                                            and not l.startswith("enc=notInSchema"))
         if bad:
             print("REPRODUCED: %s\n  real code: %s\n  schema-defined: %s" % (op[:300], g[:300], l[:300]))
             rc = 1
+    for v in judged or []:
+        print("REPRODUCED: %s\n  real code: %s\n  oracle: %s" % (v["op"][:300], v["out"][:300], v["why"][:300]))
+        rc = 1
     if rc == 0:
         print("replay passes")
     return rc
